@@ -1,12 +1,186 @@
-//! C21 — not built yet.
-use crate::runner::{Outcome, Summary};
-use crate::Ctx;
-use serde_json::Value;
+//! C21 — the gate-sequence source map matches the expansion.
+//!
+//! replay: TLC cases from spec/mc/MC_GateSequence.tla are executed on both entry points,
+//!         `expand_defgate_sequences` and `expand_defgate_sequences_with_source_map`; the two programs must
+//!         be equal (VIOLATION otherwise).  The real map is compared with the map built by the model's
+//!         stack machine; a difference is reported as divergence here, because the verdict on the map is
+//!         TLC's: see drive.
+//! drive:  mode `C21.cases` re-runs the TLC cases (argument `cases`), mode `C21` runs the seeded larger
+//!         families of c20::random_case; both export the real (body, expanded body, entries tree) as
+//!         events reset/map/info for spec/trace/GateSequenceTrace.tla, where TLC evaluates WFMap on the
+//!         real artefact (the predicate is not re-implemented in Rust).
 
-pub fn replay(_ctx: &Ctx, _case: &Value) -> Outcome {
-    panic!("C21: replay not implemented")
+use super::c20::{self, Real};
+use crate::runner::{Outcome, Summary, Violation};
+use crate::util;
+use crate::Ctx;
+use quil_rs::program::InstructionIndex;
+use quil_rs::Program;
+use serde_json::{json, Value};
+use std::collections::BTreeSet;
+use std::io::BufRead;
+
+struct Both {
+    plain: Real,
+    mapped: Real,
+    /// the two entry points returned equal programs (or both failed)
+    same: bool,
+    /// SourceMap::list_sources for every target index
+    sources: Vec<Vec<usize>>,
 }
 
-pub fn drive(_ctx: &Ctx) -> Summary {
-    panic!("C21: drive not implemented")
+fn run_both(program: &Program, filter: &BTreeSet<String>) -> Both {
+    let plain_p = program.clone().expand_defgate_sequences(|n| filter.contains(n));
+    let mapped_p = program.expand_defgate_sequences_with_source_map(|n| filter.contains(n));
+    let same = match (&plain_p, &mapped_p) {
+        (Ok(a), Ok((b, _))) => a == b && a.to_instructions() == b.to_instructions(),
+        (Err(_), Err(_)) => true,
+        _ => false,
+    };
+    let mut sources = vec![];
+    if let Ok((p, m)) = &mapped_p {
+        for ti in 0..p.body_instructions().count() {
+            sources.push(m.list_sources(&InstructionIndex(ti)).into_iter().map(|s| s.0).collect());
+        }
+    }
+    Both { plain: c20::run_plain(program, filter), mapped: c20::run_mapped(program, filter), same, sources }
+}
+
+pub fn replay(_ctx: &Ctx, case: &Value) -> Outcome {
+    let (defs, filter, body) = c20::case_parts(case);
+    let program = c20::build_program(&defs, &body);
+    let b = run_both(&program, &filter);
+    let mut o = Outcome::ok(c20::nontrivial(&defs, &filter, &body, &b.mapped));
+    if !b.same {
+        o.violate(Violation::new(
+            "both entry points give the same program",
+            c20::real_json(&b.plain),
+            c20::real_json(&b.mapped),
+        ));
+    }
+    if let (Real::Err(x), Real::Err(y)) = (&b.plain, &b.mapped) {
+        if x != y {
+            o.diverge(format!("the entry points fail with different categories: {x} / {y}"));
+        }
+    }
+    if let Some(rec) = c20::recorded_event(case, "map") {
+        // replay of a history that TLC's trace validation rejected (the verdict on the map is TLC's): establish
+        // whether the real code still exports the rejected artefact
+        let mut res = c20::real_json(&b.mapped);
+        if let Some(m) = res.get_mut("ok").and_then(|k| k.get_mut("map")) {
+            *m = c20::strip_names(m);
+        }
+        if rec["res"] == res && rec["same"] == json!(b.same) && b.same {
+            o.violate(Violation::new("source map rejected by trace validation (reproduced)", Value::Null, res)
+                .note("the real code exports the same (body, expanded body, map) that WFMap in spec/trace/GateSequenceTrace.tla rejected"));
+        }
+    }
+    if let Some(w) = case.get("res") {
+        match (&b.mapped, w.get("ok")) {
+            (Real::Ok { map: Some(m), .. }, Some(k)) => {
+                if c20::strip_names(m) != c20::strip_names(&k["map"]) {
+                    // the verdict on the real map is TLC's (WFMap in the validate step)
+                    o.diverge(format!("source map differs from the model's: model {} real {m}", k["map"]));
+                } else if *m != k["map"] {
+                    o.diverge(format!("definition names in the source map differ: model {} real {m}", k["map"]));
+                }
+                if matches!(m.as_array(), Some(es) if es.iter().any(|e| e["t"].get("r").is_some())) {
+                    o.count("with_rewritten");
+                }
+            }
+            (Real::Err(_), None) => {}
+            _ => o.diverge(format!("ok/err differs from the model: model {w} real {}", c20::real_json(&b.mapped))),
+        }
+    }
+    o
+}
+
+/// `sample_trivial`: Some(k) = the caller re-runs exhaustive TLC cases: export only results whose map has a
+/// Rewritten entry, plus every k-th of the others (all-Unmodified maps and error results, whose only C21
+/// demand "same program" is already judged by replay); None = export everything, with info events.
+fn emit_history(
+    out: &mut dyn std::io::Write,
+    defs: &[Value],
+    filter: &BTreeSet<String>,
+    body: &[Value],
+    sample_trivial: Option<(u64, u64)>,
+) -> Outcome {
+    let program = c20::build_program(defs, body);
+    let b = run_both(&program, filter);
+    if let Some((k, nth)) = sample_trivial {
+        let rewritten = matches!(&b.mapped, Real::Ok { map: Some(m), .. }
+            if m.as_array().map(|es| es.iter().any(|e| e["t"].get("r").is_some())).unwrap_or(false));
+        if !rewritten && nth % k.max(1) != 0 {
+            return Outcome::skip();
+        }
+    }
+    util::emit(out, &json!({"ev": "reset", "defs": defs, "filter": c20::filter_json(filter), "body": body}));
+    // verdict event: the two programs equal + the exported real map
+    let mut res = c20::real_json(&b.mapped);
+    let with_names = res.clone();
+    if let Some(m) = res.get_mut("ok").and_then(|k| k.get_mut("map")) {
+        *m = c20::strip_names(m);
+    }
+    util::emit(out, &json!({"ev": "map", "res": res, "same": b.same}));
+    let mut o = Outcome::ok(c20::nontrivial(defs, filter, body, &b.mapped));
+    if sample_trivial.is_none() {
+        util::emit(out, &json!({"ev": "info", "res": with_names, "sources": b.sources}));
+        o.count_n("events", 3);
+    } else {
+        o.count_n("events", 2);
+    }
+    if let Real::Ok { map: Some(m), .. } = &b.mapped {
+        fn depth(m: &Value) -> u64 {
+            m.as_array().map(|es| es.iter().map(|e| e["t"].get("r").map(|r| 1 + depth(&r["nested"])).unwrap_or(0)).max().unwrap_or(0)).unwrap_or(0)
+        }
+        let d = depth(m);
+        if d >= 1 {
+            o.count("with_rewritten");
+        }
+        if d >= 2 {
+            o.count("with_nested");
+        }
+    }
+    o
+}
+
+pub fn drive(ctx: &Ctx) -> Summary {
+    let path = ctx.arg_str("out").expect("--out");
+    let mut out = std::io::BufWriter::new(std::fs::File::create(path).expect("create trace"));
+    let mut sum = Summary::default();
+    if ctx.mode == "C21.cases" {
+        // re-run the TLC cases and export the real artefacts
+        let cases = ctx.arg_str("cases").expect("--cases");
+        let f = std::io::BufReader::new(std::fs::File::open(cases).expect("open cases"));
+        let limit = ctx.arg_u64("n", u64::MAX);
+        let every = ctx.arg_u64("trivial_every", 10);
+        let mut seen = std::collections::HashSet::new();
+        for (k, line) in f.lines().enumerate() {
+            if k as u64 >= limit {
+                break;
+            }
+            let line = line.expect("read");
+            if line.trim().is_empty() {
+                continue;
+            }
+            let case: Value = serde_json::from_str(&line).expect("case json");
+            let (defs, filter, body) = c20::case_parts(&case);
+            let o = crate::runner::run_guarded(std::panic::AssertUnwindSafe(|| {
+                // sampled by the hash of the case text, so that the selection does not depend on the order in
+                // which TLC's workers printed the cases
+                emit_history(&mut out, &defs, &filter, &body, Some((every, crate::runner::hash_line(&line))))
+            }));
+            let distinct = seen.insert(crate::runner::hash_line(&line));
+            sum.absorb(&json!({"defs": defs, "filter": c20::filter_json(&filter), "body": body}), &o, distinct);
+        }
+        return sum;
+    }
+    let n = ctx.arg_u64("n", 200);
+    let mut rng = util::rng(ctx.seed, 21);
+    for _ in 0..n {
+        let (defs, filter, body) = c20::random_case(&mut rng);
+        let o = emit_history(&mut out, &defs, &filter, &body, None);
+        sum.absorb(&json!({"defs": defs, "filter": c20::filter_json(&filter), "body": body}), &o, true);
+    }
+    sum
 }
